@@ -50,7 +50,8 @@ Definition has_type (te : tenv) (e : expr) (t : string) : bool :=
   end.
 
 (* literal portions of an allotment: with no variable and no remaining they must sum to one; with
-   a remaining clause (last) or portion variables they must stay below one *)
+   a remaining clause (last) or portion variables they must not exceed one (when they reach one the
+   variables can only be 0 and the remaining clause gets nothing: the checker says so in warnings) *)
 Definition allot_ok (te : tenv) (allots : list allot) : bool :=
   let lits := flat_map (fun a => match a with ARatio _ n (Zpos d) => [n # d] | _ => [] end) allots in
   let sum := fold_right Qplus 0%Q lits in
@@ -67,8 +68,7 @@ Definition allot_ok (te : tenv) (allots : list allot) : bool :=
      | _ => false
      end
   && (if (nrem =? 0)%nat && (nvars =? 0)%nat then Qeq_bool sum 1
-      else if (nrem =? 0)%nat && (nvars =? 1)%nat then false       (* the single variable would be fixed: a warning, keep it out of "valid" *)
-      else match Qcompare sum 1 with Lt => true | _ => false end).
+      else match Qcompare sum 1 with Gt => false | _ => true end).
 
 Fixpoint source_ok (te : tenv) (send_all : bool) (s : source) : bool :=
   match s with
